@@ -30,6 +30,9 @@ def set_targets(r, impl, old, pat, v, d):
         if bumped.swapcase() != bumped:
             out.append((bumped.swapcase(), "must-reject:case-flipped"))
         out.append((bumped + r.choice(["\n", " ", "\t"]), "must-reject:trailing-whitespace"))
+        # a pattern whose tag always carries its number (TAGNUM / PYTAGNUM): the tag without a number is not a version of the pattern
+        if re.search(r"(TAG|PYTAG)NUM", pat) and re.search(r"(a|b|rc|alpha|beta|dev|post)\d+$", bumped):
+            out.append((re.sub(r"\d+$", "", bumped), "must-reject:tag-without-number"))
     out.append((old, "equal"))
     lower = impl.v2version.format_version(v._replace(major=max(0, v.major - 1), year_y=(v.year_y or 2000) - 1, year_g=(v.year_g or 2000) - 1,
                                                      bid=str(max(1000, int(v.bid)) - 1) if int(v.bid) > 1000 else v.bid), pat)
@@ -218,9 +221,13 @@ def vcs_tag_runs(rep, impl, r, tier, effort):
     for scope in ("global", "default"):
         scen.append(("--no-fetch", [], "1.1", ["1.2.0", "1.1"], ["--minor-only"], "MAJOR.MINOR[.PATCH]", scope))
         scen.append(("--no-fetch", [], "1.2.2", ["1.2.3rc", "1.2.2"], [], "MAJOR.MINOR.PATCH[PYTAG[NUM]]", scope))
+    # a pre-release tag and the final tag of the same release numbers, the config still at the pre-release: a tag-only bump must end up above the final tag
+    for only in ("--tagnum-only", "--tagfinal-only"):
+        scen.append(("--no-fetch", [], "1.0.0rc0", ["1.0.0rc0", "1.0.0"], [only], "MAJOR.MINOR.PATCH[PYTAGNUM]", "default"))
+        scen.append(("--no-fetch", [], "1.0.0-rc", ["1.0.0-rc", "1.0.0", "1.0.0-beta"], [only], "MAJOR.MINOR.PATCH[-TAG]", "global"))
     for fetch, fail, cfgv, tags, extra, vpat, scope in scen:
-        bump = ["--minor"] if "--minor-only" in extra else ["--patch"]
-        extra = [x for x in extra if x != "--minor-only"]
+        bump = ["--minor"] if "--minor-only" in extra else ["--tag-num"] if "--tagnum-only" in extra else ["--tag", "final"] if "--tagfinal-only" in extra else ["--patch"]
+        extra = [x for x in extra if x not in ("--minor-only", "--tagnum-only", "--tagfinal-only")]
         prj = project.TempProject(vpat, cfgv, files={"a.txt": ["ver = {version}"]}, commit=True, tag=True, push=False, vcs="fakegit", tag_scope=scope,
                                   git_file=(len(scen) + len(extra) + len(fail) + len(tags)) % 2 == 0,   # half of them laid out like a linked worktree (.git is a file)
                                   vcs_cfg=dict(tags=list(tags), status="", remote="origin", fail=list(fail), usable=True))
